@@ -27,10 +27,16 @@ def seed():
         return 1
 
 
-def build_harness(features=None):
-    """cargo build of the harness crate (path dependency on /repo => rebuilds from the working tree)."""
+VH_NOSTD = os.path.join(WORK, "target_nostd", "debug", "vh")
+
+
+def build_harness(nostd=False):
+    """cargo build of the harness crate (path dependency on /repo => rebuilds from the working tree).
+    nostd: unimock built without std (critical-section + spin-lock), separate target directory."""
     t = time.time()
     cmd = ["cargo", "build", "--offline"]
+    if nostd:
+        cmd += ["--no-default-features", "--features", "nostd", "--target-dir", os.path.join(WORK, "target_nostd")]
     env = dict(os.environ)
     env["CARGO_NET_OFFLINE"] = "true"
     p = subprocess.run(cmd, cwd=HARNESS, env=env, capture_output=True, text=True)
@@ -125,13 +131,13 @@ def run_tlc(inst, name, workers=8, timeout=1200, simulate=None):
     return r
 
 
-def run_tlc_replay(inst, name, vh_args, workers=8, timeout=1200, simulate=None):
+def run_tlc_replay(inst, name, vh_args, workers=8, timeout=1200, simulate=None, vh_path=None):
     """TLC emitting instance piped into `vh <vh_args...>`; returns (tlc stats, harness result dict, harness exit)."""
     cmd, d = tlc_cmd(inst, name, workers, simulate)
     res_path = os.path.join(d, "result.json")
     tlc_log = os.path.join(d, "tlc.out")
     t = time.time()
-    vh = [VH] + [a.replace("{result}", res_path) for a in vh_args]
+    vh = [vh_path or VH] + [a.replace("{result}", res_path) for a in vh_args]
     with open(tlc_log, "w") as lf:
         # tee: TLC stdout goes both to the harness and (non-REPLAY lines) to a log
         p1 = subprocess.Popen(cmd, cwd=TLA, stdout=subprocess.PIPE, stderr=subprocess.STDOUT)
